@@ -170,8 +170,18 @@ func RerunPerturbed(h *History, scratch, label string, p Perturb) (*History, *Pe
 			}
 			return
 		}
-		switch rng.Intn(4) {
+		switch rng.Intn(5) {
 		case 0: // transfer
+		case 4: // withdraw part (often most) of the committed reward
+			if len(sn.Rewards) == 0 || sn.Rewards[0] == nil {
+				return
+			}
+			cum, ok := new(big.Int).SetString(sn.Rewards[0].Cumulated, 10)
+			if !ok || cum.Sign() == 0 {
+				return
+			}
+			t.Type, t.To, t.Amount = 8, make([]byte, 20), "0"
+			t.WithdrawReq = frac(cum, int64(2+rng.Intn(3)), 4)
 		case 1: // stake to self or to a validator
 			t.Type, t.Amount = 2, rigo(int64(1+rng.Intn(3)))
 			if rng.Intn(2) == 0 {
